@@ -135,6 +135,23 @@ def run_oracle(scn, tr):
     if not np.array_equal(np.asarray(r["x"]), rx0) or np.any(np.asarray(r["x0"]) == -98765.0):
         v.append(viol("result:not-a-copy", "writing into bads.x / bads.x0 changed the result"))
     b.x[...] = bx
+    # later use of the optimiser cannot change the result: overwrite every float array the optimiser still holds
+    # (attributes and optim_state entries) in place and compare the result with a snapshot taken before
+    snap = {k: copy.deepcopy(r[k]) for k in dict.keys(r) if isinstance(r[k], (np.ndarray, float, int, str, type(None)))}
+    pools = [vars(b), b.optim_state]
+    for pool in pools:
+        for key_, arr in list(pool.items()):
+            if isinstance(arr, np.ndarray) and arr.dtype.kind == "f" and arr.flags.writeable and arr.size:
+                try:
+                    arr[...] = -4242.0
+                except Exception:  # noqa: BLE001
+                    pass
+    for k, old_ in snap.items():
+        new_ = r[k]
+        same_ = (np.array_equal(np.asarray(old_), np.asarray(new_), equal_nan=True) if isinstance(old_, np.ndarray) else (old_ == new_ or (old_ != old_ and new_ != new_)))
+        if not same_:
+            v.append(viol("result:field-aliases-optimizer-state", f"overwriting the optimiser's arrays in place changed result[{k!r}]", site=k))
+            break
     # agreement with problem and final state
     lb, ub = harness.hard_bounds(scn)
     if scn.get("cons") is not None:
